@@ -5,7 +5,14 @@
 import json, os, subprocess, sys, shutil, tempfile
 env = dict(os.environ, GOFLAGS='-mod=mod', GOPROXY='off')
 env.pop('GOSUMDB', None)
-pat = sys.argv[1] if len(sys.argv) > 1 else ''
+pat = sys.argv[1] if len(sys.argv) > 1 and not sys.argv[1].startswith('--') else ''
+done = set()
+for a in sys.argv[1:]:
+    if a.startswith('--skip-ok='):
+        for l in open(a[len('--skip-ok='):]):
+            if l.startswith('ok  '):
+                f = l.split()
+                done.add((' '.join(f[1:-2]), f[-2]))
 cost = {'C13':1,'C14':2,'C19':2,'C20':2,'C04':3,'C03':3,'C06':4,'C09':4,'C18':5,'C05':6,'C12':6,'C08':7,'C16':8,'C11':8,'C10':9,'C01':9,'C07':9,'C02':12,'C15':20,'C17':25}
 items = json.loads(subprocess.run(['bin/govc','renames','-repo','/repo'],capture_output=True,text=True,env=env,cwd='/verif').stdout)
 wt = tempfile.mkdtemp(prefix='govc-rename-'); os.rmdir(wt)
@@ -14,7 +21,7 @@ seen=set(); bad=0; n=0
 try:
     for it in items:
         key=(it['file'],tuple(it['offsets']))
-        if key in seen or pat not in it['func'] or not it['offsets']: continue
+        if key in seen or pat not in it['func'] or not it['offsets'] or not it.get('props') or (it['func'], it['local']) in done: continue
         seen.add(key)
         rel=os.path.relpath(it['file'],'/repo'); path=os.path.join(wt,rel)
         src=open(path,'rb').read(); new=it['local']+'Rn'; out=src; ok=True
